@@ -5,7 +5,7 @@ CFG = {
     "exe": "geomv_c04",
     "go_cmd": "c04",
     "stages": ["go:gen", "go:impl", "lean:judge"],
-    "theorems": [],
+    "theorems": [T + n for n in ["C04_len", "C04_bounds", "C04_bounds_empty_iff", "C04_extend_join", "C04_extend_laws", "C04_extend_empty", "C04_overlaps", "C04_intersection", "C04_copy", "C04_empty"]],
     "trusted_base": [],
     "assumptions": [],
     "rule": "",
